@@ -59,6 +59,12 @@ def make_cases(tier, rng):
         for _ in range(1 if tier == "quick" else 3):
             add("inproc", [g.est(rng, d, "dial_first", gap=5500), g.est(rng, d, rng.choice(["accept_first", "dial_first"]), gap=0),
                            g.est(rng, d, "accept_first", gap=100)], "late-accept:" + d)
+    # a second and third connection to an id whose server is still serving (real processes: outcomes only)
+    for d in ["h2p", "p2h"]:
+        e1 = g.est(rng, d, rng.choice(["accept_first", "dial_first"]), gap=rng.choice([0, 100]), keep=True)
+        again = [dict(g.est(rng, d, gap=0), id=e1["id"], nopeer="dial_again") for _ in range(2)]
+        add("process", [e1] + again + [g.est(rng, gap=0)], "second-connection")
+        cases[-1]["sequential"] = True
     # the gRPC half of C09's last clause: closing the client ends the brokers' goroutines (a few in-process cases, it takes seconds)
     n = 0
     for c in cases:
